@@ -11,6 +11,7 @@ import (
 	"fmt"
 	"io"
 	"log"
+	"net"
 	"strings"
 	"testing"
 	"time"
@@ -301,4 +302,83 @@ func mustEnc(answer string) []byte {
 		panic(err)
 	}
 	return b
+}
+
+// TestVerifEnumC15Silent: the broker channel the client really builds (newBrokerChannelFromConfig with
+// its own transport) against a broker that accepts the request and never answers: the rendezvous
+// attempt must end with an error in bounded time (the collection of snowflakes waits for it while
+// holding its lock, so an attempt that never ends stops all later attempts).  Real time: a 60 s
+// watchdog, re-run three times before it counts.
+func TestVerifEnumC15Silent(t *testing.T) {
+	log.SetOutput(io.Discard)
+	r := en.New()
+	defer r.Done()
+	r.Begin("silent-broker", "newBrokerChannelFromConfig x {HTTP rendezvous, AMP cache rendezvous} x {no front, a front} against a loopback server that reads the request and never answers: Negotiate returns an error within 60 s (the documented timeout is 15 s)")
+	ln, err := net.Listen("tcp", "127.0.0.1:0")
+	if err != nil {
+		r.Incomplete("cannot listen on loopback: " + err.Error())
+		return
+	}
+	defer ln.Close()
+	go func() {
+		for {
+			c, err := ln.Accept()
+			if err != nil {
+				return
+			}
+			go func() {
+				buf := make([]byte, 4096)
+				for {
+					if _, err := c.Read(buf); err != nil {
+						return
+					}
+				}
+			}()
+		}
+	}()
+	base := "http://" + ln.Addr().String() + "/"
+	offer := &webrtc.SessionDescription{Type: webrtc.SDPTypeOffer, SDP: "v=0\r\n"}
+	for _, cfg := range []ClientConfig{
+		{BrokerURL: base},
+		{BrokerURL: base, AmpCacheURL: base + "cache/"},
+		{BrokerURL: "http://broker.invalid/", FrontDomain: ln.Addr().String()},
+	} {
+		if !r.Mine() {
+			continue
+		}
+		name := fmt.Sprintf("amp=%v front=%v", cfg.AmpCacheURL != "", cfg.FrontDomain != "")
+		r.Case("silent|"+name, true)
+		attempt := func() (string, string) {
+			bc, err := newBrokerChannelFromConfig(cfg)
+			if err != nil {
+				return "setup", err.Error()
+			}
+			done := make(chan error, 1)
+			go func() {
+				_, err := bc.Negotiate(offer)
+				done <- err
+			}()
+			select {
+			case err := <-done:
+				if err == nil {
+					return "noerr", "Negotiate returned no error although the broker never answered"
+				}
+				return "", ""
+			case <-time.After(60 * time.Second):
+				return "hang", "Negotiate had not returned 60 s after the broker went silent"
+			}
+		}
+		kind, msg := attempt()
+		for i := 0; i < 2 && kind == "hang"; i++ {
+			kind, msg = attempt()
+		}
+		switch kind {
+		case "hang":
+			r.Fail("rendezvous:never-gives-up-on-a-silent-broker", msg, name)
+		case "noerr":
+			r.Fail("rendezvous:silent-broker-not-reported", msg, name)
+		case "setup":
+			r.Incomplete("could not build the broker channel: " + msg)
+		}
+	}
 }
